@@ -252,7 +252,13 @@ func (c *converter) syncPartial() {
 	}
 	updIngs := make(map[string]bool, len(c.changed.IngressesUpd))
 	for _, ing := range c.changed.IngressesUpd {
-		updIngs[ing.Namespace+"/"+ing.Name] = true
+		name := ing.Namespace + "/" + ing.Name
+		updIngs[name] = true
+		if !delIngs[name] {
+			// an updated ingress might not be tracked yet, e.g. it didn't
+			// configure anything before this update, so it isn't a dirty one
+			ingMap[name] = nil
+		}
 	}
 	for _, ing := range c.changed.IngressesAdd {
 		name := ing.Namespace + "/" + ing.Name
